@@ -611,57 +611,127 @@ Proof. exists ([0] ++ [1;1] ++ [0] ++ repeat 2 8 ++ repeat 1 6)%nat. vm_compute.
 Close Scope Z_scope.
 
 (* ================================================================================================ *)
-(* D. StreamProcessor: operations after Close fail cleanly; the reader is closed once                *)
+(* D. StreamProcessor: Close against read operations                                                 *)
 (* ================================================================================================ *)
+Definition pclean (t : ppc) : list ppc :=
+  match t with PCleanBuf | PCleanWriter | PCleanReader | PUnlock => [t] | _ => [] end.
+Definition p_is_op (t : ppc) : bool :=
+  match t with OStart | OHaveLock | OChecked | OUse _ | ORet _ | OPanicked | PClosed _ => true | _ => false end.
+
 Section StreamProof.
+  Variable fixed : bool.
   Variable reads : nat.
 
-  Definition PInv (s : psh * list ppc) : Prop :=
-    (p_reader (fst s) = true /\ p_rclose (fst s) = 0) \/ (p_reader (fst s) = false /\ p_rclose (fst s) = 1).
+  (* ---- the underlying reader is closed at most once, for any number of closers and operations ---- *)
+  Definition CInv (s : psh * list ppc) : Prop :=
+    let sh := fst s in let ls := snd s in
+    (p_closed sh = false /\ p_dlock sh = false /\ flat_map pclean ls = [] /\ p_rclose sh = 0)
+    \/ (p_closed sh = true /\ p_dlock sh = true /\
+        exists h, flat_map pclean ls = [h] /\ (h = PUnlock -> p_rclose sh <= 1) /\ (h <> PUnlock -> p_rclose sh = 0))
+    \/ (p_closed sh = true /\ p_dlock sh = false /\ flat_map pclean ls = [] /\ p_rclose sh <= 1).
 
-  Definition Pok (sh : psh) : Prop :=
-    (p_reader sh = true /\ p_rclose sh = 0) \/ (p_reader sh = false /\ p_rclose sh = 1).
-
-  Lemma pstep_rc t sh : Pok sh -> Pok (snd (pstep reads t sh)).
+  (* an operation step (and a returned closer) touches neither the latch nor the close counter *)
+  Lemma op_step_frame x sh : p_is_op x = true ->
+    pclean (fst (pstep fixed reads x sh)) = [] /\ pclean x = [] /\
+    p_closed (snd (pstep fixed reads x sh)) = p_closed sh /\ p_dlock (snd (pstep fixed reads x sh)) = p_dlock sh /\
+    p_rclose (snd (pstep fixed reads x sh)) = p_rclose sh.
   Proof.
-    destruct sh as [c d r rd rc pn]. unfold Pok. cbn [p_reader p_rclose].
-    intros [[-> ->]|[-> ->]]; destruct c, d, r; destruct t as [| | | | | | | | |left| |]; try destruct left;
-      cbn; auto.
+    destruct sh as [c d r rd rc pn].
+    destruct x as [| | | | |act| | | |left|ok|]; intros Hop; try discriminate; try destruct left; cbn;
+      destruct fixed, d, c, r, rd; cbn; try destruct (0 <? rc); cbn; auto.
   Qed.
 
-  Lemma pinv_step s i : PInv s -> PInv (sys_step _ _ (pstep reads) s i).
+  Lemma cinv_step s i : CInv s -> CInv (sys_step _ _ (pstep fixed reads) s i).
   Proof.
-    destruct s as [sh ls]. unfold PInv, sys_step. cbn [fst snd]. intros H.
+    destruct s as [sh ls]. unfold CInv, sys_step. cbn [fst snd]. intros H.
     destruct (nth_error ls i) as [x|] eqn:En; [|exact H].
-    pose proof (pstep_rc x sh H) as H'. destruct (pstep reads x sh) as [x' sh']. exact H'.
+    destruct (fm_upd2 pclean ls i x En) as (a & b & Ha & Hupd).
+    destruct (p_is_op x) eqn:Hop.
+    - destruct (op_step_frame x sh Hop) as (Hx' & Hx & Hc & Hd & Hr).
+      destruct (pstep fixed reads x sh) as [x' sh']. cbn [fst snd] in *.
+      assert (Hfm : flat_map pclean (upd_nth i x' ls) = flat_map pclean ls) by (rewrite Hupd, Ha, Hx, Hx'; reflexivity).
+      rewrite Hfm, Hc, Hd, Hr. exact H.
+    - destruct x; try discriminate Hop; cbn [pstep].
+      + (* PClose *)
+        destruct (p_dlock sh) eqn:Ed; cbn [fst snd].
+        { rewrite (upd_nth_same ls i _ En). rewrite Ed. exact H. }
+        destruct (p_closed sh) eqn:Ec; cbn [fst snd].
+        * rewrite Hupd. cbn [pclean] in *. rewrite <- Ha. rewrite Ed, Ec. exact H.
+        * cbn [p_closed p_dlock p_rclose]. right; left. split; [reflexivity|]. split; [reflexivity|].
+          destruct H as [(_ & _ & Hh & Hr)|[(Hc & _)|(Hc & _)]]; try congruence.
+          cbn [pclean] in Ha. rewrite Ha in Hh. apply app_nil3 in Hh. destruct Hh as (-> & _ & ->).
+          exists PCleanBuf. rewrite Hupd. split; [reflexivity|]. split; [discriminate|auto].
+      + (* PCleanBuf *)
+        cbn [fst snd]. cbn [pclean] in Ha.
+        destruct H as [(_ & _ & Hh & _)|[(Hc & Hd & h & Hh & Hu & Hn)|(_ & _ & Hh & _)]];
+          try (rewrite Ha in Hh; exfalso; eapply app_mid_nil; exact Hh).
+        rewrite Ha in Hh. cbn [app] in Hh. apply app_single in Hh. destruct Hh as (-> & -> & <-).
+        right; left. split; [exact Hc|]. split; [exact Hd|]. exists PCleanWriter. rewrite Hupd.
+        split; [reflexivity|]. split; [discriminate|]. intros _. apply Hn. discriminate.
+      + (* PCleanWriter *)
+        cbn [fst snd]. cbn [pclean] in Ha.
+        destruct H as [(_ & _ & Hh & _)|[(Hc & Hd & h & Hh & Hu & Hn)|(_ & _ & Hh & _)]];
+          try (rewrite Ha in Hh; exfalso; eapply app_mid_nil; exact Hh).
+        rewrite Ha in Hh. cbn [app] in Hh. apply app_single in Hh. destruct Hh as (-> & -> & <-).
+        right; left. split; [exact Hc|]. split; [exact Hd|]. exists PCleanReader. rewrite Hupd.
+        split; [reflexivity|]. split; [discriminate|]. intros _. apply Hn. discriminate.
+      + (* PCleanReader: the one place the reader is closed *)
+        cbn [fst snd]. cbn [pclean] in Ha.
+        destruct H as [(_ & _ & Hh & _)|[(Hc & Hd & h & Hh & Hu & Hn)|(_ & _ & Hh & _)]];
+          try (rewrite Ha in Hh; exfalso; eapply app_mid_nil; exact Hh).
+        rewrite Ha in Hh. cbn [app] in Hh. apply app_single in Hh. destruct Hh as (-> & -> & <-).
+        assert (H0 : p_rclose sh = 0) by (apply Hn; discriminate).
+        right; left. destruct (p_reader sh); cbn [p_closed p_dlock p_rclose].
+        * split; [exact Hc|]. split; [exact Hd|]. exists PUnlock. rewrite Hupd.
+          split; [reflexivity|]. split; [intros _; lia|intros Hne; congruence].
+        * split; [exact Hc|]. split; [exact Hd|]. exists PUnlock. rewrite Hupd.
+          split; [reflexivity|]. split; [intros _; lia|intros Hne; congruence].
+      + (* PUnlock *)
+        cbn [fst snd]. cbn [pclean] in Ha.
+        destruct H as [(_ & _ & Hh & _)|[(Hc & Hd & h & Hh & Hu & Hn)|(_ & _ & Hh & _)]];
+          try (rewrite Ha in Hh; exfalso; eapply app_mid_nil; exact Hh).
+        rewrite Ha in Hh. cbn [app] in Hh. apply app_single in Hh. destruct Hh as (-> & -> & <-).
+        right; right. cbn [p_closed p_dlock p_rclose]. split; [exact Hc|]. split; [reflexivity|].
+        split; [rewrite Hupd; reflexivity|]. apply Hu. reflexivity.
+  Qed.
+
+  Lemma cinv_init ts : forallb p_initial ts = true -> CInv (pinit, ts).
+  Proof.
+    intros Hi. rewrite forallb_forall in Hi. left. cbn [fst snd pinit p_closed p_dlock p_rclose].
+    split; [reflexivity|]. split; [reflexivity|]. split; [|reflexivity].
+    induction ts as [|t r IH]; cbn; [reflexivity|].
+    assert (Ht : p_initial t = true) by (apply Hi; left; reflexivity).
+    destruct t; cbn in Ht; try discriminate; cbn; apply IH; intros y Hy; apply Hi; right; exact Hy.
   Qed.
 
   Theorem reader_closed_at_most_once ts sched :
-    let s := run _ _ (pstep reads) (pinit, ts) sched in p_rclose (fst s) <= 1.
+    forallb p_initial ts = true ->
+    let s := run _ _ (pstep fixed reads) (pinit, ts) sched in p_rclose (fst s) <= 1.
   Proof.
-    intros s. assert (HI : PInv s).
-    { unfold s. apply inv_all_schedules; [intros s0 i; apply pinv_step|]. left. cbn. auto. }
-    destruct HI as [[_ H]|[_ H]]; lia.
+    intros Hi s. assert (HI : CInv s).
+    { unfold s. apply inv_all_schedules; [intros s0 i; apply cinv_step|apply cinv_init; exact Hi]. }
+    destruct HI as [(_ & _ & _ & H)|[(_ & _ & h & _ & Hu & Hn)|(_ & _ & _ & H)]]; try lia.
+    destruct h; try (rewrite Hn by discriminate; lia). apply Hu; reflexivity.
   Qed.
 
-  (* an operation that has not taken the read lock yet when the processor is already closed never reaches the reader:
-     in every continuation it is waiting, or has returned an error; it never succeeds and never panics *)
+  (* ---- an operation that has not taken the read lock yet when the processor is already closed never reaches the
+     reader: in every continuation it is waiting, or has returned an error; it never succeeds and never panics ---- *)
   Definition QInv (j : nat) (s : psh * list ppc) : Prop :=
     p_closed (fst s) = true /\
     (nth_error (snd s) j = Some OStart \/ nth_error (snd s) j = Some OHaveLock \/ nth_error (snd s) j = Some (ORet false)).
 
-  Lemma closed_monotone t sh : p_closed sh = true -> p_closed (snd (pstep reads t sh)) = true.
+  Lemma closed_monotone t sh : p_closed sh = true -> p_closed (snd (pstep fixed reads t sh)) = true.
   Proof.
     destruct sh as [c d r rd rc pn]. cbn [p_closed]. intros ->.
-    destruct d, r, rd; destruct t as [| | | | | | | | |left| |]; try destruct left; cbn; auto.
+    destruct fixed, d, r, rd; destruct t as [| | | | | | | | |left| |]; try destruct left; cbn; try destruct (0 <? rc); cbn; auto.
   Qed.
 
-  Lemma qinv_step j s i : QInv j s -> QInv j (sys_step _ _ (pstep reads) s i).
+  Lemma qinv_step j s i : QInv j s -> QInv j (sys_step _ _ (pstep fixed reads) s i).
   Proof.
     destruct s as [sh ls]. unfold QInv, sys_step. cbn [fst snd]. intros [Hc Hj].
     destruct (nth_error ls i) as [x|] eqn:En; [|cbn [fst snd]; auto].
     pose proof (closed_monotone x sh Hc) as Hmono.
-    destruct (pstep reads x sh) as [x' sh'] eqn:Es. cbn [fst snd] in *. split; [exact Hmono|].
+    destruct (pstep fixed reads x sh) as [x' sh'] eqn:Es. cbn [fst snd] in *. split; [exact Hmono|].
     destruct (Nat.eq_dec i j) as [->|Hne].
     - assert (Hlen : j < length ls) by (apply nth_error_Some; congruence).
       rewrite nth_error_upd_nth_same by exact Hlen.
@@ -675,7 +745,7 @@ Section StreamProof.
 
   Theorem ops_after_close_fail_cleanly j sh ls sched :
     p_closed sh = true -> nth_error ls j = Some OStart ->
-    let s := run _ _ (pstep reads) (sh, ls) sched in
+    let s := run _ _ (pstep fixed reads) (sh, ls) sched in
     nth_error (snd s) j = Some OStart \/ nth_error (snd s) j = Some OHaveLock \/ nth_error (snd s) j = Some (ORet false).
   Proof.
     intros Hc Hj s. assert (HI : QInv j s).
@@ -684,8 +754,50 @@ Section StreamProof.
   Qed.
 End StreamProof.
 
-(* an operation that passed its closed-check BEFORE a concurrent Close nils the reader calls a nil interface:
-   onClose writes ps.reader = nil without holding readLock *)
+(* ---- the full statement, repaired code (onClose keeps the fields): for EVERY schedule of any closers and operations,
+   concurrent with Close or not, no operation ever calls a nil reader: nothing panics, no thread is in the panicked state ---- *)
+Definition NInv (s : psh * list ppc) : Prop :=
+  p_reader (fst s) = true /\ p_panics (fst s) = 0 /\ Forall (fun t => t <> OPanicked) (snd s).
+
+Lemma nstep_frame reads x sh : p_reader sh = true ->
+  p_reader (snd (pstep true reads x sh)) = true /\ p_panics (snd (pstep true reads x sh)) = p_panics sh /\
+  (x <> OPanicked -> fst (pstep true reads x sh) <> OPanicked).
+Proof.
+  destruct sh as [c d r rd rc pn]. cbn [p_reader]. intros ->.
+  destruct x as [| | | | |act| | | |left|ok|]; try destruct left; cbn; destruct d, c, r; cbn; try destruct (0 <? rc); cbn;
+    repeat split; auto; try discriminate.
+Qed.
+
+Lemma ninv_step reads s i : NInv s -> NInv (sys_step _ _ (pstep true reads) s i).
+Proof.
+  destruct s as [sh ls]. unfold NInv, sys_step. cbn [fst snd]. intros (Hr & Hp & Hf).
+  destruct (nth_error ls i) as [x|] eqn:En; [|cbn [fst snd]; auto].
+  destruct (nstep_frame reads x sh Hr) as (Hr' & Hp' & Hx').
+  destruct (pstep true reads x sh) as [x' sh']. cbn [fst snd] in *.
+  split; [exact Hr'|]. split; [rewrite Hp'; exact Hp|].
+  apply Forall_upd; [exact Hf|]. apply Hx'. eapply Forall_nth; eauto.
+Qed.
+
+Theorem ops_concurrent_with_close_never_crash reads ts sched :
+  forallb p_initial ts = true ->
+  let s := run _ _ (pstep true reads) (pinit, ts) sched in
+  p_panics (fst s) = 0 /\ Forall (fun t => t <> OPanicked) (snd s).
+Proof.
+  intros Hi s. assert (HI : NInv s).
+  { unfold s. apply inv_all_schedules; [intros s0 i; apply ninv_step|].
+    split; [reflexivity|]. split; [reflexivity|]. rewrite forallb_forall in Hi. rewrite Forall_forall.
+    intros t Ht Heq. subst t. apply Hi in Ht. discriminate. }
+  destruct HI as (_ & Hp & Hf). split; assumption.
+Qed.
+
+(* the same scenario that crashes the pinned code ends with a clean error in the repaired code *)
+Lemma read_concurrent_with_close_fixed_returns_error :
+  let s := run _ _ (pstep true 2) (pinit, [OStart; PClose]) ([0;0;0;0] ++ repeat 1 5 ++ [0]) in
+  p_panics (fst s) = 0 /\ nth_error (snd s) 0 = Some (ORet false) /\ p_rlock (fst s) = false.
+Proof. vm_compute. auto. Qed.
+
+(* pinned code: an operation that passed its closed-check BEFORE a concurrent Close nils the reader calls a nil
+   interface: onClose wrote ps.reader = nil without holding readLock *)
 Lemma read_concurrent_with_close_panics_refuted :
-  exists sched, p_panics (fst (run _ _ (pstep 2) (pinit, [OStart; PClose]) sched)) = 1.
+  exists sched, p_panics (fst (run _ _ (pstep false 2) (pinit, [OStart; PClose]) sched)) = 1.
 Proof. exists ([0;0;0;0] ++ repeat 1 5 ++ [0]). vm_compute. reflexivity. Qed.
